@@ -1,6 +1,6 @@
 //! The only future / stream / value types ever handed to the crate under test.
 
-use crate::alloc::CbGuard;
+use crate::alloc::{vt, CbGuard};
 use crate::world::*;
 use futures_core::Stream;
 use std::future::Future;
@@ -134,7 +134,7 @@ enum Phase {
 }
 
 fn stash_waker(id: Cid, waker: &Waker, mode: u8) {
-    let c = waker.clone();
+    let c = vt(|| waker.clone());
     let old: Vec<Waker> = w(|x| {
         let st = &mut x.children[id as usize].stash;
         if mode >= 2 {
@@ -150,7 +150,7 @@ fn stash_waker(id: Cid, waker: &Waker, mode: u8) {
             out
         }
     });
-    drop(old);
+    vt(|| drop(old));
 }
 
 /// common entry book-keeping of a child poll. Returns false if the hard cap was hit.
@@ -288,7 +288,7 @@ impl<K: Kind> Future for ScriptFut<K> {
                 stash_waker(id, cx.waker(), mode);
                 if self_wake {
                     begin_invocation(slot, id, "self wake_by_ref");
-                    cx.waker().wake_by_ref();
+                    vt(|| cx.waker().wake_by_ref());
                     end_invocation();
                 }
                 if let Some(a) = act {
@@ -299,7 +299,7 @@ impl<K: Kind> Future for ScriptFut<K> {
             Phase::Ready { self_wake, act, fail } => {
                 if self_wake {
                     begin_invocation(slot, id, "self wake_by_ref (completing)");
-                    cx.waker().wake_by_ref();
+                    vt(|| cx.waker().wake_by_ref());
                     end_invocation();
                 }
                 if let Some(a) = act {
@@ -638,7 +638,7 @@ impl<S: SKind> Stream for ScriptStream<S> {
                     stash_waker(id, cx.waker(), mode);
                     if sw {
                         begin_invocation(slot, id, "self wake_by_ref (source)");
-                        cx.waker().wake_by_ref();
+                        vt(|| cx.waker().wake_by_ref());
                         end_invocation();
                     }
                 }
